@@ -83,6 +83,32 @@ def copy_repo(dst, with_objects=True):
     sh(['rsync', '-a'] + ex + [REPO + '/', dst + '/'])
 
 
+def finish_impl(d, scratch):
+    """copy the built library and headers out of a build tree and link the implementation driver against them."""
+    lib = os.path.join(scratch, '.libs', 'libmpir.a')
+    shutil.copy(lib, os.path.join(d, 'libmpir.a'))
+    for f in glob.glob(os.path.join(scratch, '*.h')):
+        shutil.copy(f, os.path.join(d, 'include'))   # follows symlinks (gmp-mparam.h)
+    os.makedirs(os.path.join(d, 'gensrc'), exist_ok=True)
+    for f in ('mpn/mp_bases.c', 'mpn/fib_table.c', 'mpn/perfsqr.h', 'mpn/jacobitab.h', 'fac_ui.h', 'fib_table.h',
+              'mp_bases.h', 'trialdivtab.h'):
+        p = os.path.join(scratch, f)
+        if os.path.exists(p):
+            shutil.copy(p, os.path.join(d, 'gensrc', os.path.basename(f)))
+    srcs = sorted(glob.glob(os.path.join(ROOT, 'harness', 'drv.c')) + glob.glob(os.path.join(ROOT, 'harness', 'ops_*.c')))
+    sys.path.insert(0, os.path.join(ROOT, 'translator'))
+    import gen_protos
+    gen_protos.main(os.path.join(d, 'alias_table.c'))
+    srcs.append(os.path.join(d, 'alias_table.c'))
+    wraps = []
+    for src in srcs:
+        txt = open(src).read()
+        wraps += re.findall(r'\bWRAPV?\w*\((\w+)', txt) + re.findall(r'\b__wrap_(\w+)\s*\(', txt)
+    wl = ['-Wl,--wrap=' + w for w in sorted(set(wraps)) if w.startswith('__')]
+    sh(['gcc', '-O1', '-g', '-w', '-I' + os.path.join(d, 'include'), '-I' + os.path.join(ROOT, 'harness')] + srcs +
+       [os.path.join(d, 'libmpir.a'), '-lm', '-lpthread'] + wl + ['-o', os.path.join(d, 'drv')], timeout=600)
+
+
 def build_impl(log=None):
     """Build libmpir.a and the implementation driver from /repo's current working tree.
     Returns the cache directory holding drv, libmpir.a and include/."""
@@ -140,28 +166,7 @@ def build_impl(log=None):
                 rc, out = sh('make -j%d SUBDIRS="%s"' % (NCPU, LIB_SUBDIRS), cwd=scratch, timeout=1800, check=False)
                 if rc != 0:
                     raise RuntimeError("BUILD-FAILED: /repo's working tree does not build:\n" + out[-3000:])
-            lib = os.path.join(scratch, '.libs', 'libmpir.a')
-            shutil.copy(lib, os.path.join(d, 'libmpir.a'))
-            for f in glob.glob(os.path.join(scratch, '*.h')):
-                shutil.copy(f, os.path.join(d, 'include'))   # follows symlinks (gmp-mparam.h)
-            os.makedirs(os.path.join(d, 'gensrc'), exist_ok=True)
-            for f in ('mpn/mp_bases.c', 'mpn/fib_table.c', 'mpn/perfsqr.h', 'mpn/jacobitab.h', 'fac_ui.h', 'fib_table.h',
-                      'mp_bases.h', 'trialdivtab.h'):
-                p = os.path.join(scratch, f)
-                if os.path.exists(p):
-                    shutil.copy(p, os.path.join(d, 'gensrc', os.path.basename(f)))
-            srcs = sorted(glob.glob(os.path.join(ROOT, 'harness', 'drv.c')) + glob.glob(os.path.join(ROOT, 'harness', 'ops_*.c')))
-            sys.path.insert(0, os.path.join(ROOT, 'translator'))
-            import gen_protos
-            gen_protos.main(os.path.join(d, 'alias_table.c'))
-            srcs.append(os.path.join(d, 'alias_table.c'))
-            wraps = []
-            for src in srcs:
-                txt = open(src).read()
-                wraps += re.findall(r'\bWRAPV?\w*\((\w+)', txt) + re.findall(r'\b__wrap_(\w+)\s*\(', txt)
-            wl = ['-Wl,--wrap=' + w for w in sorted(set(wraps)) if w.startswith('__')]
-            sh(['gcc', '-O1', '-g', '-w', '-I' + os.path.join(d, 'include'), '-I' + os.path.join(ROOT, 'harness')] + srcs +
-               [os.path.join(d, 'libmpir.a'), '-lm', '-lpthread'] + wl + ['-o', os.path.join(d, 'drv')], timeout=600)
+            finish_impl(d, scratch)
         finally:
             shutil.rmtree(scratch, ignore_errors=True)
         with open(os.path.join(d, 'ok'), 'w') as fh:
